@@ -1,5 +1,22 @@
 import EpModel.Lemmas.Builder
 import EpModel.Lemmas.DecRefine
+/-
+  C10, parsing half: the wire-format walk `Spec.decode` over the bytes the PacketBuilder model emits.
+
+  * memory lemmas: `memOf (a ++ b)`, `Holds g o b` (the memory holds `b` at `o`; splits along `++`),
+    and the fields the walk looks at read out of the serialised headers (`eth2_et`, `vlan_et`,
+    `sll_fields`, `ipv4_fields`, `ipv6_fields`, `udp_len_field`, `tcp_dataOffset`, `icmp4_fields`,
+    `rawExt_fields`, `frag_fields`, `auth_fields`, `arp_fields`);
+  * one lemma per `Spec.step` arm, over an arbitrary memory that holds the header
+    (`step_eth`, `step_sll`, `step_vlan`, `step_ether_*`, `step_ipAny*`, `step_ipv4_plain`,
+    `step_ipv4_auth`, `step_ipv6`, `walk_udp`, `walk_tcp`, `walk_icmp4`, `walk_icmp6`, `walk_other`);
+  * the IPv6 extension chain: `Spec.chain` over the headers `set_next_headers` + `write_internal` emit
+    (`chain_exts`, through `ChainRes` composed header by header; `setNextHeaders_num/_bytes` give the
+    emitted chain in closed form);
+  * the stages over a configuration (`walk_tp_cfg`, `walk_ipv4_cfg`, `walk_ipv6_cfg`, `walk_net_cfg`,
+    `walk_vlan_cfg`) and the result `decode_buildOk`: `Spec.decode (startOf c)` of `buildOk c p` is
+    `.ok (expPacket c p.length)` for every well-formed, encodable configuration with `ParseOk`.
+-/
 namespace EpModel.Lemmas.BuilderParse
 open EpModel EpModel.Dec EpModel.Spec EpModel.Codec EpModel.CodecNet EpModel.Builder EpModel.Lemmas.Builder
 open EpModel.Lemmas.Codec EpModel.Lemmas.Refine
